@@ -53,6 +53,12 @@ def main(argv):
             with open(opts["replay"]) as f:
                 only = json.load(f)
         mod.run(project, report, tier)
+        if tier == "thorough" and only is None:
+            from sa.bytecheck import crosscheck
+            from sa.selftest import selftest
+
+            report.info["engine_crosscheck"] = crosscheck(project)
+            report.info["selftest"] = selftest(pid, repo)
         if only is not None:
             hits = [o for o in report.obligations if o.rule == only["rule"] and o.key == only["key"]]
             if not hits:
